@@ -45,7 +45,7 @@ struct MObj {
     /* dataset */
     MType *type; int rank; hsize_t dims[MAXRANK], maxdims[MAXRANK]; unsigned char *data; size_t nelem; int chunked;
 };
-typedef struct { int used; int exists; char name[NAMEMAX]; MObj *root; int opens; unsigned intent; uint64_t mutations; uint64_t flushes; } MFile;
+typedef struct { int used; int exists; char name[NAMEMAX]; MObj *root; int opens; unsigned intent; uint64_t mutations; uint64_t flushes; int not_hdf5; long long raw_size; } MFile;
 
 typedef struct { int rank; hsize_t dims[MAXRANK], maxdims[MAXRANK]; int scalar; int has_sel; hsize_t start[MAXRANK], count[MAXRANK]; } MSpace;
 typedef struct { hid_t cls; int rank; hsize_t chunk[MAXRANK]; int has_chunk; int deflate; unsigned crt_order; H5T_cset_t cset; } MPlist;
